@@ -132,6 +132,48 @@ def serveHolds : List String → List Req → List Obs → Bool × String
     serveHolds (if i.called then testName r :: earlier else earlier) rs is
   | _, _, _ => (true, "")
 
+/-! ### the real server (op `real`, c12real.go) -/
+
+structure RealObs where
+  fb : List String
+  named : Bool
+  ms : Option Int
+  seenTO : Nat
+  status : Nat
+  proto : Nat
+  ok : Bool
+  err : String
+
+def realObsOf (j : Json) : RealObs :=
+  { fb := strList (field j "fb"), named := bool (field j "named"), ms := optIntStr (field j "ms"),
+    seenTO := nat (field j "seenTO"), status := nat (field j "status"), proto := nat (field j "proto"),
+    ok := bool (field j "ok"), err := str (field j "err") }
+
+/-- feedback that is not about one of the six aspects and is judged by `generalHolds` -/
+def notAnAspect : Fb → Bool
+  | .repeated | .trailers | .timeoutEmpty | .timeoutUnit | .timeoutNumeric | .timeoutDigits => true
+  | _ => false
+
+def asciiString (b : List UInt8) : String := String.ofList (b.map fun x => Char.ofNat x.toNat)
+
+def timeoutHeaders (q : Req) : Nat :=
+  (values q.headers "Connect-Timeout-Ms").length + (values q.headers "Grpc-Timeout").length
+
+def agreeReal (o : ChainOutcome) (i : RealObs) : Bool :=
+  i.err == "" && i.fb == o.outcome.feedback.map Fb.toString &&
+  i.ms == o.outcome.timeout.map ServerTimeout.timeoutMs &&
+  (match o.inner with
+   | some q => i.ok && i.seenTO == timeoutHeaders q
+   | none => !i.ok)
+
+/-- what the client can tell about the server implementation, in the terms of `generalHolds`:
+the inner handler ran iff the RPC succeeded; the timeout headers the implementation saw are the
+ones it echoes in the request info -/
+def obsOfReal (i : RealObs) : Obs :=
+  { called := i.ok, fb := i.fb, named := i.named, ms := i.ms,
+    seen := if i.seenTO > 0 then [("Connect-Timeout-Ms", "?"), ("Grpc-Timeout", "?")] else [],
+    status := i.status, error := !i.ok }
+
 def handle : Handler := fun op inp impl =>
   if !(isNull (field impl "panic")) then
     { agree := false, holds := false, why := "panic: " ++ str (field impl "panic") } else
@@ -201,6 +243,43 @@ def handle : Handler := fun op inp impl =>
           cls := if !a.realisable then "unrealisable" else if aspectsMatch e a then "match" else "deviating" }
       | _ => bad "matrix: expected one observation"
     | _, _ => bad "matrix: bad tuples"
+  | "real" =>
+    match aspects (field inp "e"), aspects (field inp "a") with
+    | some e, some a =>
+      let v := variant (field inp "v")
+      let name := str (field inp "name")
+      let proc := str (field inp "proc")
+      let times := nat (field inp "times")
+      let path := "/connectrpc.conformance.v1.ConformanceService/" ++ proc
+      let r0 := render e name a v
+      let toHdr := timeoutHeaderOf (protoOf (a.protocol.num : Nat))
+      let timeout := field inp "timeout"
+      let r : Req := { r0 with
+        headers := (if name == "" then r0.headers.drop 1 else r0.headers) ++
+          (if isNull timeout then [] else [(toHdr, asciiString (unhex (str timeout)))])
+        trailers := nat (field inp "trailers") }
+      let reqs := List.replicate times r
+      let outs := serveChain path [] reqs
+      let obs := (arr impl).map realObsOf
+      let agree := outs.length == obs.length && (outs.zip obs).all (fun (o, i) => agreeReal o i)
+      let model := toJson (outs.map fun o => outcomeJson o.outcome)
+      match obs.find? (fun i => i.err != "") with
+      | some i => { agree := false, holds := false, model := model,
+                    why := "the exchange with the real reference server failed: " ++ i.err }
+      | none =>
+      if obs.length != times then { agree := false, holds := false, model := model, why := "observations missing" } else
+      if obs.any (fun i => i.proto != a.version.num) then
+        bad s!"real: the exchange did not use HTTP/{a.version.num}" else
+      let (g, gwhy) := serveHolds [] reqs (obs.map obsOfReal)
+      let exact := obs.all fun i => flagsExactly e a ((i.fb.map fbOfClass).filter (fun f => !notAnAspect f))
+      let dev := mismatches e a
+      { agree := agree, holds := g && exact, nontrivial := true, model := model,
+        why := if !g then s!"{proc} over HTTP/{a.version.num}: " ++ gwhy else if !exact then
+          s!"{proc} over HTTP/{a.version.num}: feedback {obs.map (·.fb)} does not name exactly the deviating aspects {reprStr dev}" else "",
+        cls := s!"{proc}/http{a.version.num}/" ++ (if name == "" then "no-name" else if !isNull timeout then "timeout"
+          else if times > 1 then "repeat" else if nat (field inp "trailers") > 0 then "trailers"
+          else if dev.isEmpty then "match" else "deviating") }
+    | _, _ => bad "real: bad tuples"
   | "render" =>
     match aspects (field inp "e"), aspects (field inp "a") with
     | some e, some a =>
